@@ -102,9 +102,52 @@ func init() {
 			ex0 := Eval(w)
 			if c.Tape.Choose(simrt.StGen, 4, 0) == 1 {
 				// history: complete run, then run again
+				defaultPaths := c.Tape.Choose(simrt.StGen, 3, 0) == 1
+				if defaultPaths {
+					// scipipe's default output names (no SetOut): the second run must
+					// find the same names again. The reference does not predict them, so
+					// only the re-run clauses are evaluated.
+					for i := range w.Nodes {
+						for k := range w.Nodes[i].Outs {
+							w.Nodes[i].Outs[k].Pattern = ""
+						}
+					}
+				}
 				c.Sample = "run twice: " + sample(w)
 				inc1 := RunInc(w, c.Tape, nil, 0, IncOpts{KillAt: -1, Strategy: strategyOf(c.Tape), Trace: c.Trace})
 				c.Absorb(inc1)
+				if defaultPaths {
+					if v, ok := inconclusiveEnd(inc1); ok {
+						return v
+					}
+					if !completedOK(inc1) {
+						return Skipped(Viol("no-completion", "", "%s", endDesc(inc1)))
+					}
+					before := inc1.Sim.FS.Snapshot()
+					inc2 := RunInc(w, c.Tape, before, inc1.Sim.FS.NextIno, IncOpts{KillAt: -1, Strategy: strategyOf(c.Tape), Trace: c.Trace})
+					c.Absorb(inc2)
+					c.Tasks = max(c.Tasks, 2)
+					if v, ok := inconclusiveEnd(inc2); ok {
+						return v
+					}
+					if !completedOK(inc2) {
+						return Viol("rerun-no-completion", "end="+inc2.Sim.End.String(), "second run of a completed workflow did not complete: %s", endDesc(inc2))
+					}
+					if st := execKeys(inc2.Sim.Shell.Trace, "start", 0); len(st) > 0 {
+						return Viol("rerun-executed", "", "second run of a completed workflow (default output names) executed command(s): %v", st)
+					}
+					bf, af := WorkFiles(before), WorkFiles(inc2.Sim.FS.Root)
+					for p, a := range bf {
+						if a.Kind != simrt.KFile || strings.HasSuffix(p, ".audit.json") {
+							continue
+						}
+						b, ok := af[p]
+						if !ok || b.Ino != a.Ino || b.Mtime != a.Mtime || string(b.Data) != string(a.Data) {
+							return Viol("rerun-modified", "", "second run changed %s", p)
+						}
+					}
+					return OK()
+				}
 				if v := flowOracle(inc1, ex0); v.Status != "ok" {
 					return v
 				}
